@@ -242,7 +242,7 @@ def save_fails(kind: int, ssc: bool, has_bak: bool, has_out: bool) -> bool:
 
 def fs_fault(k: int, ssc: bool, has_bak: bool, has_out: bool, op: int) -> bool:
     """
-    pre: 1 <= k <= 14 and 1 <= op <= 6
+    pre: 1 <= k <= 14 and 0 <= op <= 6
     post: _
     """
     global LAST
@@ -269,6 +269,12 @@ def fs_fault(k: int, ssc: bool, has_bak: bool, has_out: bool, op: int) -> bool:
         if bak and bak in fs.closed and not failed_op.endswith(":" + bak):
             if stream_of_text(fs.files[bak]) != entry_stream:
                 LAST = ("backup incomplete at", failed_op)
+                return False
+        # "the original is never lost when a backup was asked for": once the input no longer holds its original text, a
+        # complete backup must exist
+        if bak and fs.files.get(name) != orig:
+            if bak not in fs.closed or stream_of_text(fs.files.get(bak, "")) != entry_stream:
+                LAST = ("the input is damaged and there is no complete backup: the original is lost", failed_op, fs.oplog)
                 return False
         # the output is only touched after the backup is complete
         if bak and target in fs.write_encoding and bak not in fs.closed:
